@@ -531,9 +531,70 @@ def rule_grow(ctx, rep, rid="R-C03-grow"):
                     r.ok(inst, loc_str(bd.f, c.loc))
 
 
+def _list_root(b, p, hops=6):
+    """the local a list expression is taken from: through field projections, borrows, derefs and the by-value adaptors
+    into_iter / iter / as_slice / deref (`diagnostics.into_iter().next()` is about `diagnostics`)"""
+    for _ in range(hops):
+        if p is None:
+            return None
+        rt = b.root(p)
+        d = b.single_def(rt[0]) if not [x for x in rt[1] if isinstance(x, list) and x[0] == "f"] else None
+        if d and d[0] == "call" and (d[2].callee or d[2].u or "").split("::")[-1] in ("into_iter", "iter", "iter_mut", "as_slice", "deref", "deref_mut", "as_ref", "borrow") and d[2].args:
+            p = op_place(d[2].args[0])
+            continue
+        if d and d[0] == "stmt" and d[3][0] == "use" and d[3][1][0] in ("cp", "mv"):
+            p = d[3][1][1]
+            continue
+        return rt
+    return b.root(p) if p is not None else None
+
+
+def known_empty_at(b, site_bb, lst):
+    """is the list rooted at local `lst` known to be empty whenever block `site_bb` runs?  Accepted evidence, in whatever way it is
+    written: `is_empty()` holds, `len() == 0` holds / `len() != 0`, `len() > 0`, `len() >= 1` do not, or taking its first element
+    (`first()`, `get(0)`, `iter().next()`, `into_iter().next()`) gave None."""
+    from rules import panics
+    from vlib.mir import switch_info
+
+    def about(p):
+        rt = _list_root(b, p)
+        return rt is not None and rt[0] == lst
+    for g in panics._cmp_guards(b, site_bb):
+        if g[0] == "call" and (g[1].callee or "").split("::")[-1] == "is_empty" and g[4] and g[1].args and about(op_place(g[1].args[0])):
+            return True
+        if g[0] == "bin":
+            _, op2, a, c, holds = g
+            for x, y, o in ((a, c, op2), (c, a, {"Lt": "Gt", "Gt": "Lt", "Le": "Ge", "Ge": "Le"}.get(op2, op2))):
+                xp = op_place(x)
+                v = panics._int_const(b, y)
+                d = b.single_def(b.root(xp)[0]) if xp is not None else None
+                if v is None or not (d and d[0] == "call" and (d[2].callee or "").split("::")[-1] == "len" and d[2].args and about(op_place(d[2].args[0]))):
+                    continue
+                if (o == "Eq" and holds and v == 0) or (o == "Ne" and not holds and v == 0) or (o == "Gt" and not holds and v == 0) or \
+                        (o == "Ge" and not holds and v == 1) or (o == "Lt" and holds and v == 1) or (o == "Le" and holds and v == 0):
+                    return True
+    dom = b.dominators()
+    for d_ in dom.get(site_bb, set()):
+        si = switch_info(b, d_)
+        if not si or si["kind"] != "disc" or si.get("adt") != "core::option::Option" or si["subject"][0] != "call":
+            continue
+        c = si["subject"][1]
+        nm = (c.callee or c.u or "").split("::")[-1]
+        first = nm in ("first", "next") or (nm == "get" and len(c.args) > 1 and panics._int_const(b, c.args[1]) == 0)
+        if not first or not c.args or not about(op_place(c.args[0])) or si["subject"][2:] and si["subject"][2]:
+            continue
+        if nm == "next" and any(c2 is not c and c2.args and op_place(c2.args[0]) is not None and b.root(op_place(c2.args[0]))[0] == b.root(op_place(c.args[0]))[0]
+                                and (c2.callee or c2.u or "").split("::")[-1] in ("next", "nth", "skip", "advance_by") for c2 in b.calls() if c2.bb in dom.get(c.bb, set())):
+            continue        # not the first element
+        for succ, labs in si["edges"].items():
+            if labs == ["None"] and (succ == site_bb or succ in dom.get(site_bb, set())) and panics._edge_dominates(b, d_, succ, site_bb):
+                return True
+    return False
+
+
 def rule_first(ctx, rep):
-    r = rep.rule("R-C03-first", "parse_program returns Err whenever the tokenizer reported anything (the is_empty test of the tokenizer's diagnostics "
-                                "dominates the parse)", floor=1)
+    r = rep.rule("R-C03-first", "parse_program returns Err whenever the tokenizer reported anything (the parse runs only where the tokenizer's "
+                                "diagnostics are known to be empty: is_empty / len()==0 / no first element)", floor=1)
     pb = ctx.prog.get("ironplc_parser::parse_program")
     if not pb:
         rep.error("R-C03-first", "parse_program not found")
@@ -545,14 +606,9 @@ def rule_first(ctx, rep):
     if len(pl) != 1 or len(tk) != 1:
         r.finding("parse_program|shape", "%s:%d" % (b.f["file"], b.f["line"]), "expected one tokenize_program and one parse_library call")
         return
-    ok = False
-    for g in panics._cmp_guards(b, pl[0].bb):
-        if g[0] == "call" and g[1].callee in ("alloc::vec::Vec::is_empty", "core::slice::is_empty") and g[4]:
-            rt = b.root(op_place(g[1].args[0]))
-            if rt[0] == tk[0].dest[0]:
-                ok = True
+    ok = known_empty_at(b, pl[0].bb, tk[0].dest[0])
     if ok:
-        r.ok("parse_program|is_empty-dominates-parse", loc_str(b.f, pl[0].loc))
+        r.ok("parse_program|empty-diagnostics-dominate-parse", loc_str(b.f, pl[0].loc))
     else:
         r.finding("parse_program|tokenizer-errors-ignored", loc_str(b.f, pl[0].loc), "parse_library is reachable although the tokenizer's diagnostics were not found empty")
 
